@@ -63,6 +63,8 @@ class Hist:
         k = self.rng.choice(["glen", "gempty", "llen", "lfull", "lempty"])
         if k in ("glen", "gempty") or self.nh == 0:
             self.obs(k if k in ("glen", "gempty") else "glen")
+        elif self.rng.random() < 0.05:
+            self.obs(k, self.nh + self.rng.randint(0, 2))      # unknown handle: refused, `bad` on both sides
         else:
             self.obs(k, self.rng.randrange(self.nh))
 
